@@ -78,10 +78,13 @@ def make_classes(m):
 
 
 # events (python tuples):
-#   ("Create", (remote, local socket), tpk, vs, n, qarr, args, res, ws)
-#   ("Recv",   (remote, local socket), vs_or_None, n, qarr, res, ws)
+#   ("Init", app, n) ("Stop", app)
+#   ("Create", app, (remote, local socket), tpk, vs, n, qarr, args, res, ws)
+#   ("Recv",   app, (remote, local socket), vs_or_None, n, qarr, res, ws)
+#   ("CreateRefused", app, (remote, local socket), tpk, vs, n, qarr, args, res)
 #   ("Resp",   dict(k, remote, purpose, flag, q, cid, seq, good, x, bell))
-#   ("Retry",) ("Poll", sid) ("Free", v) ("Alloc", v)
+#   ("Retry",) ("Poll", sid) ("Free", app, v) ("Alloc", app, v)
+#   a response dict may carry fmt = "native" | "qlink" (qlink-interface 1.0 Res* object)
 #   ws: list of ("WAll", addr, lo, hi) | ("WAny", addr, lo, hi) | ("WSingle", addr, i)
 
 def info_of(r):
@@ -91,7 +94,7 @@ def info_of(r):
 
 
 class EprWorld:
-    def __init__(self, m, classes, node_id, um_size, pm="id"):
+    def __init__(self, m, classes, node_id, pm="id"):
         self.m = m
         Stack, Ex, Ctrl = classes
         m["shared_memory"].SharedMemoryManager.reset_memories()
@@ -104,12 +107,11 @@ class EprWorld:
         self.slots = {}
         self.dead = set()       # subroutines that ended at an injected put() fault (the executor keeps
                                 # their entry in _subroutines: exceptions skip _clear_subroutine)
-        list(self.ctrl.handle_netqasm_message(0, m["messages"].InitNewAppMessage(0, um_size)))
 
     # ------------------------------------------------------------------ subroutines as generators
-    def _start(self, body):
+    def _start(self, app, body):
         sid = self.ex._next_subroutine_id
-        sub = self.m["parsing"].parse_text_subroutine("# NETQASM 1.0\n# APPID 0\n" + body)
+        sub = self.m["parsing"].parse_text_subroutine(f"# NETQASM 1.0\n# APPID {app}\n" + body)
         self.msg_id += 1
         g = self.ctrl.handle_netqasm_message(self.msg_id, self.m["messages"].SubroutineMessage(sub))
         self.gens[sid] = g
@@ -160,8 +162,15 @@ class EprWorld:
         """returns -1 (no fault) or the exception class code"""
         try:
             kind = ev[0]
-            if kind == "Create":
-                _, (remote, sock), tpk, vs, n, qarr, args, res, ws = ev
+            M = self.m["messages"]
+            if kind == "Init":
+                self.msg_id += 1
+                list(self.ctrl.handle_netqasm_message(self.msg_id, M.InitNewAppMessage(ev[1], ev[2])))
+            elif kind == "Stop":
+                self.msg_id += 1
+                list(self.ctrl.handle_netqasm_message(self.msg_id, M.StopAppMessage(ev[1])))
+            elif kind == "Create":
+                _, app, (remote, sock), tpk, vs, n, qarr, args, res, ws = ev
                 slot = self._slot()
                 t = self._fill(qarr, vs) if tpk else ""
                 t += (f"set R0 20\narray R0 @{args}\nset R0 {0 if tpk else 1}\nset R1 0\nstore R0 @{args}[R1]\n"
@@ -169,11 +178,11 @@ class EprWorld:
                       f"set R0 {remote}\nset R1 {sock}\n" + (f"set R2 {qarr}\n" if tpk else "")
                       + f"set R3 {args}\nset R4 {res}\ncreate_epr R0 R1 {'R2' if tpk else 'C15'} R3 R4\n")
                 t += self._wait_text(slot, ws)
-                sid = self._start(t)
+                sid = self._start(app, t)
                 self.slots[sid] = slot
                 self._advance(sid)
             elif kind == "CreateRefused":
-                _, (remote, sock), tpk, vs, n, qarr, args, res = ev
+                _, app, (remote, sock), tpk, vs, n, qarr, args, res = ev
                 t = self._fill(qarr, vs) if tpk else ""
                 t += (f"set R0 20\narray R0 @{args}\nset R0 {0 if tpk else 1}\nset R1 0\nstore R0 @{args}[R1]\n"
                       f"set R0 {n}\nset R1 1\nstore R0 @{args}[R1]\nset R0 {10 * n}\narray R0 @{res}\n"
@@ -181,7 +190,7 @@ class EprWorld:
                       + f"set R3 {args}\nset R4 {res}\ncreate_epr R0 R1 {'R2' if tpk else 'C15'} R3 R4\n"
                       f"set C14 0\nset C15 {10 * n}\nwait_all @{res}[C14:C15]\n")
                 self.ctrl.network_stack.refuse = True
-                sid = self._start(t)
+                sid = self._start(app, t)
                 try:
                     self._advance(sid)
                     raise AssertionError("harness: the refused create_epr did not fault")
@@ -190,20 +199,31 @@ class EprWorld:
                 finally:
                     self.ctrl.network_stack.refuse = False
             elif kind == "Recv":
-                _, (remote, sock), vs, n, qarr, res, ws = ev
+                _, app, (remote, sock), vs, n, qarr, res, ws = ev
                 slot = self._slot()
                 t = self._fill(qarr, vs) if vs is not None else ""
                 t += (f"set R0 {10 * n}\narray R0 @{res}\nset R0 {remote}\nset R1 {sock}\n"
                       + (f"set R2 {qarr}\n" if vs is not None else "")
                       + f"set R4 {res}\nrecv_epr R0 R1 {'R2' if vs is not None else 'C15'} R4\n")
                 t += self._wait_text(slot, ws)
-                sid = self._start(t)
+                sid = self._start(app, t)
                 self.slots[sid] = slot
                 self._advance(sid)
             elif kind == "Resp":
                 r = ev[1]
                 Q = self.m["qlink_compat"]
-                if r["k"]:
+                if r.get("fmt", "native") == "qlink":
+                    # the qlink-interface 1.0 dataclass format; _handle_epr_response converts it
+                    import qlink_interface as ql
+                    common = dict(create_id=r["cid"], directionality_flag=r["flag"], sequence_number=r["seq"],
+                                  purpose_id=r["purpose"], remote_node_id=r["remote"], goodness=r["good"],
+                                  bell_state=ql.BellState[Q.BellState(r["bell"]).name])
+                    if r["k"]:
+                        resp = ql.ResCreateAndKeep(logical_qubit_id=r["q"], time_of_goodness=r["x"], **common)
+                    else:
+                        resp = ql.ResMeasureDirectly(measurement_outcome=r["q"],
+                                                     measurement_basis=ql.MeasurementBasis(r["x"]), **common)
+                elif r["k"]:
                     resp = Q.LinkLayerOKTypeK(Q.ReturnType.OK_K, r["cid"], r["q"], r["flag"], r["seq"], r["purpose"],
                                               r["remote"], r["good"], r["x"], Q.BellState(r["bell"]))
                 else:
@@ -215,10 +235,10 @@ class EprWorld:
             elif kind == "Poll":
                 self._advance(ev[1])
             elif kind == "Free":
-                sid = self._start(f"set Q0 {ev[1]}\nqfree Q0\n")
+                sid = self._start(ev[1], f"set Q0 {ev[2]}\nqfree Q0\n")
                 self._advance(sid)
             elif kind == "Alloc":
-                sid = self._start(f"set Q0 {ev[1]}\nqalloc Q0\n")
+                sid = self._start(ev[1], f"set Q0 {ev[2]}\nqalloc Q0\n")
                 self._advance(sid)
             else:
                 raise AssertionError(kind)
@@ -245,8 +265,8 @@ class EprWorld:
         pend = []
         for r in ex._pending_epr_responses:
             pend.append([x.value if hasattr(x, "value") else x for x in r])
-        return dict(arrs={a: list(l) for a, l in ex._app_arrays[0]._arrays.items()},
-                    um=list(ex._qubit_unit_modules[0]),
+        return dict(arrs={(app, a): list(l) for app, arrs in ex._app_arrays.items() for a, l in arrs._arrays.items()},
+                    ums={app: list(um) for app, um in ex._qubit_unit_modules.items()},
                     creq=qview(ex._epr_create_requests), rreq=qview(ex._epr_recv_requests),
                     pend=pend, alive=sorted(k for k in ex._subroutines.keys() if k not in self.dead),
                     blocked=sorted(self.gens.keys()))
@@ -254,46 +274,48 @@ class EprWorld:
 
 # ---------------------------------------------------------------------- independent FIFO reference (oracle)
 class FifoRef:
-    """Written from the property text: per (remote, purpose, role) a FIFO of requests, each
-    with a count of consumed pairs; a response is consumed by the oldest outstanding request
-    for its remote node, purpose and role; pair k fills slice k of that request's result array
-    and maps its k-th virtual qubit; the request is retired after its number of pairs; a keep
-    response is deferred while its virtual qubit is allocated; among the waiting responses the
-    earliest arrived one that can be consumed goes first."""
+    """Written from the property text: per (remote, purpose, role) a FIFO of requests (of any
+    application), each with a count of consumed pairs; a response is consumed by the oldest
+    outstanding request for its remote node, purpose and role; pair k fills slice k of that
+    request's result array and maps its k-th virtual qubit (arrays and qubits of the request's
+    application); the request is retired after its number of pairs; a keep response is deferred
+    while its virtual qubit is allocated; among the waiting responses the earliest arrived one that
+    can be consumed goes first.  Registering / stopping an application touches only that
+    application's arrays and qubits: responses waiting for a request nobody has issued yet stay."""
 
-    def __init__(self, node, um_size, pm="id"):
+    def __init__(self, node, pm="id"):
         self.node = node
         # the purpose the network stack assigned to each local socket (requests are matched on
         # purpose ids, which is what responses carry)
         self.purpose = {0: 0, 1: 1} if pm == "id" else {0: 1, 1: 0} if pm == "swap" else {0: pm[1], 1: 1 + pm[1]}
         self.q = {}
         self.pending = []
-        self.arrays = {}
-        self.um = [None] * um_size
-        self.consumed = []     # (cid, res, k)
+        self.arrays = {}       # (app, addr) -> list
+        self.ums = {}          # app -> unit module
+        self.consumed = []     # (cid, app, res, k)
+        self.dropped = set()   # cids whose result array went away with its application
         self.arrived = []
-        self.wait = {}         # sid -> remaining waits
+        self.wait = {}         # sid -> (app, remaining waits)
         self.nsid = 0
-        self.next_phys = 0
 
-    def _new_sub(self, ws):
+    def _new_sub(self, app, ws):
         sid = self.nsid
         self.nsid += 1
         if ws is not None:
-            self.wait[sid] = list(ws)
+            self.wait[sid] = (app, list(ws))
             self.poll(sid)
         return sid
 
-    def request(self, key, creator, vs, n, qarr, res, ws, args=None, tpk=None):
+    def request(self, app, key, creator, vs, n, qarr, res, ws, args=None, tpk=None):
         key = (key[0], self.purpose[key[1]])       # (remote node, local socket) -> (remote node, purpose)
         if vs is not None:
-            self.arrays[qarr] = list(vs)
+            self.arrays[(app, qarr)] = list(vs)
         if args is not None:
-            self.arrays[args] = [0 if tpk else 1, n] + [None] * 18
-        self.arrays[res] = [None] * (10 * n)
-        self.q.setdefault((key, creator), []).append(dict(res=res, qarr=qarr if vs is not None else None, tot=n, done=0,
-                                                          sid=self.nsid))
-        self._new_sub(ws)
+            self.arrays[(app, args)] = [0 if tpk else 1, n] + [None] * 18
+        self.arrays[(app, res)] = [None] * (10 * n)
+        self.q.setdefault((key, creator), []).append(dict(app=app, res=res, qarr=qarr if vs is not None else None,
+                                                          tot=n, done=0, sid=self.nsid))
+        self._new_sub(app, ws)
 
     def role(self, r):
         creator_node = r["remote"] if r["flag"] == 1 else self.node
@@ -313,14 +335,15 @@ class FifoRef:
                 if not fifo:
                     continue
                 head = fifo[0]
+                app = head["app"]
                 k = head["done"]
                 if r["k"]:
-                    v = self.arrays[head["qarr"]][k]
-                    if self.um[v] is not None:
+                    v = self.arrays[(app, head["qarr"])][k]
+                    if self.ums[app][v] is not None:
                         continue
-                    self.um[v] = r["q"]
-                self.arrays[head["res"]][10 * k:10 * k + 10] = info_of(r)
-                self.consumed.append((r["cid"], head["res"], k))
+                    self.ums[app][v] = r["q"]
+                self.arrays[(app, head["res"])][10 * k:10 * k + 10] = info_of(r)
+                self.consumed.append((r["cid"], app, head["res"], k))
                 head["done"] += 1
                 if head["done"] == head["tot"]:
                     fifo.pop(0)
@@ -329,10 +352,10 @@ class FifoRef:
                 break
 
     def poll(self, sid):
-        ws = self.wait[sid]
+        app, ws = self.wait[sid]
         while ws:
             w = ws[0]
-            arr = self.arrays[w[1]]
+            arr = self.arrays[(app, w[1])]
             if w[0] == "WAll":
                 ok = all(x is not None for x in arr[w[2]:w[3]])
             elif w[0] == "WAny":
@@ -344,32 +367,33 @@ class FifoRef:
             ws.pop(0)
         del self.wait[sid]
 
-    def free(self, v):
-        self.nsid += 1
-        self.um[v] = None
+    def busy_apps(self):
+        """applications with an outstanding request or a waiting subroutine (they are not stopped)"""
+        return {c["app"] for l in self.q.values() for c in l} | {a for a, _ in self.wait.values()}
 
-    def alloc(self, v, used_phys):
-        self.nsid += 1
-        p = 0
-        while p in used_phys:
-            p += 1
-        self.um[v] = p
-
-    def apply(self, ev, real_um_before=None):
+    def apply(self, ev):
         k = ev[0]
-        if k == "Create":
-            _, key, tpk, vs, n, qarr, args, res, ws = ev
-            self.request(key, True, vs if tpk else None, n, qarr, res, ws, args=args, tpk=tpk)
+        if k == "Init":
+            self.ums[ev[1]] = [None] * ev[2]
+        elif k == "Stop":
+            app = ev[1]
+            del self.ums[app]
+            for key in [x for x in self.arrays if x[0] == app]:
+                del self.arrays[key]
+            self.dropped |= {c[0] for c in self.consumed if c[1] == app}
+        elif k == "Create":
+            _, app, key, tpk, vs, n, qarr, args, res, ws = ev
+            self.request(app, key, True, vs if tpk else None, n, qarr, res, ws, args=args, tpk=tpk)
         elif k == "Recv":
-            _, key, vs, n, qarr, res, ws = ev
-            self.request(key, False, vs, n, qarr, res, ws)
+            _, app, key, vs, n, qarr, res, ws = ev
+            self.request(app, key, False, vs, n, qarr, res, ws)
         elif k == "CreateRefused":
             # the network stack refused the request: nothing is outstanding because of it
-            _, key, tpk, vs, n, qarr, args, res = ev
+            _, app, key, tpk, vs, n, qarr, args, res = ev
             if tpk:
-                self.arrays[qarr] = list(vs)
-            self.arrays[args] = [0 if tpk else 1, n] + [None] * 18
-            self.arrays[res] = [None] * (10 * n)
+                self.arrays[(app, qarr)] = list(vs)
+            self.arrays[(app, args)] = [0 if tpk else 1, n] + [None] * 18
+            self.arrays[(app, res)] = [None] * (10 * n)
             self.nsid += 1
         elif k == "Resp":
             self.response(ev[1])
@@ -378,15 +402,21 @@ class FifoRef:
         elif k == "Poll":
             self.poll(ev[1])
         elif k == "Free":
-            self.free(ev[1])
+            self.nsid += 1
+            self.ums[ev[1]][ev[2]] = None
         elif k == "Alloc":
-            self.alloc(ev[1], {p for p in self.um if p is not None})
+            self.nsid += 1
+            usedp = {p for um in self.ums.values() for p in um if p is not None}
+            p = 0
+            while p in usedp:
+                p += 1
+            self.ums[ev[1]][ev[2]] = p
 
     def compare(self, ob):
         """differences between the reference and the observed executor state"""
         bad = []
-        if ob["um"] != self.um:
-            bad.append(f"unit module {ob['um']} != reference {self.um}")
+        if ob["ums"] != self.ums:
+            bad.append(f"unit modules {ob['ums']} != reference {self.ums}")
         for a, l in self.arrays.items():
             if ob["arrs"].get(a) != l:
                 bad.append(f"array @{a} {ob['arrs'].get(a)} != reference {l}")
@@ -401,9 +431,10 @@ class FifoRef:
         if sorted(self.wait) != ob["blocked"]:
             bad.append(f"subroutines still waiting {ob['blocked']} != reference {sorted(self.wait)}")
         # exactly once, read off the implementation: every arrived response is either still
-        # pending or sits in exactly one result-array slice
-        tags = [r[1] for r in ob["pend"]]
-        resaddrs = {c["res"] for lst_ in self.q.values() for c in lst_} | {c[1] for c in self.consumed}
+        # pending or sits in exactly one result-array slice (or its array went away with its application)
+        tags = [r[1] for r in ob["pend"]] + sorted(self.dropped)
+        resaddrs = {(c["app"], c["res"]) for lst_ in self.q.values() for c in lst_} \
+            | {(c[1], c[2]) for c in self.consumed if c[0] not in self.dropped}
         for a in resaddrs:
             l = ob["arrs"].get(a, [])
             for i in range(0, len(l), 10):
@@ -444,24 +475,30 @@ def coq_resp(r):
 
 def coq_event(ev):
     k = ev[0]
+    if k == "Init":
+        return f"(IOther (Init {z(ev[1])} {nat(ev[2])}))"
+    if k == "Stop":
+        return f"(IOther (Stop {z(ev[1])}))"
     if k == "Create":
-        _, key, tpk, vs, n, qarr, args, res, ws = ev
-        return (f"(ICreate {z(key[0])} {z(key[1])} {coqb(tpk)} {lst(z(v) for v in vs)} {nat(n)} {z(qarr)} {z(args)} {z(res)} "
+        _, app, key, tpk, vs, n, qarr, args, res, ws = ev
+        return (f"(ICreate {z(app)} {z(key[0])} {z(key[1])} {coqb(tpk)} {lst(z(v) for v in vs)} {nat(n)} {z(qarr)} {z(args)} {z(res)} "
                 f"{coq_ws(ws)})")
     if k == "CreateRefused":
-        _, key, tpk, vs, n, qarr, args, res = ev
-        return (f"(ICreateRefused {z(key[0])} {z(key[1])} {coqb(tpk)} {lst(z(v) for v in vs)} {nat(n)} {z(qarr)} {z(args)} "
+        _, app, key, tpk, vs, n, qarr, args, res = ev
+        return (f"(ICreateRefused {z(app)} {z(key[0])} {z(key[1])} {coqb(tpk)} {lst(z(v) for v in vs)} {nat(n)} {z(qarr)} {z(args)} "
                 f"{z(res)})")
     if k == "Recv":
-        _, key, vs, n, qarr, res, ws = ev
+        _, app, key, vs, n, qarr, res, ws = ev
         vst = "None" if vs is None else f"(Some {lst(z(v) for v in vs)})"
-        return f"(IRecv {z(key[0])} {z(key[1])} {vst} {nat(n)} {z(qarr)} {z(res)} {coq_ws(ws)})"
+        return f"(IRecv {z(app)} {z(key[0])} {z(key[1])} {vst} {nat(n)} {z(qarr)} {z(res)} {coq_ws(ws)})"
     if k == "Resp":
         return f"(IOther (Resp {coq_resp(ev[1])}))"
     if k == "Retry":
         return "(IOther Retry)"
-    if k in ("Poll", "Free", "Alloc"):
-        return f"(IOther ({k} {z(ev[1])}))"
+    if k == "Poll":
+        return f"(IOther (Poll {z(ev[1])}))"
+    if k in ("Free", "Alloc"):
+        return f"(IOther ({k} {z(ev[1])} {z(ev[2])}))"
     raise AssertionError(ev)
 
 
@@ -476,9 +513,10 @@ def coq_queue(d):
 def coq_obs(fault, ob):
     if ob is None:
         return f"(mkObs {z(fault)} [] [] [] [] [] [])"
-    arrs = lst(f"({z(a)}, {coq_arr(l)})" for a, l in sorted(ob["arrs"].items()))
+    arrs = lst(f"(({z(a[0])}, {z(a[1])}), {coq_arr(l)})" for a, l in sorted(ob["arrs"].items()))
+    ums = lst(f"({z(a)}, {coq_arr(l)})" for a, l in sorted(ob["ums"].items()))
     pend = lst(lst(z(x) for x in r) for r in ob["pend"])
-    return (f"(mkObs {z(fault)} {arrs} {coq_arr(ob['um'])} {coq_queue(ob['creq'])} {coq_queue(ob['rreq'])} {pend} "
+    return (f"(mkObs {z(fault)} {arrs} {ums} {coq_queue(ob['creq'])} {coq_queue(ob['rreq'])} {pend} "
             f"{lst(z(x) for x in ob['alive'])})")
 
 
@@ -499,13 +537,13 @@ def coq_pm(pm):
 
 
 def write_case_file(path, groups):
-    """groups: list of (pm, node_id, um_size, [trees])"""
+    """groups: list of (pm, node_id, [trees])"""
     with open(path, "w") as f:
         f.write(CASE_HEADER)
-        for i, (pm, nd, n, trees) in enumerate(groups):
+        for i, (pm, nd, trees) in enumerate(groups):
             f.write(f"Definition cases{i} : list tcase :=\n [" + ";\n  ".join(coq_tree(t) for t in trees) + "].\n")
-        f.write("Eval vm_compute in (" + " ++ ".join(f"failing {coq_pm(pm)} {z(nd)} {nat(n)} cases{i}"
-                                                      for i, (pm, nd, n, _) in enumerate(groups)) + ").\n")
+        f.write("Eval vm_compute in (" + " ++ ".join(f"failing {coq_pm(pm)} {z(nd)} cases{i}"
+                                                      for i, (pm, nd, _) in enumerate(groups)) + ").\n")
 
 
 def parse_failing(out):
